@@ -767,6 +767,23 @@ class Interp:
       return Opaque('re')
     if fname.startswith('logging.'):
       return None
+    if fname == 'itertools.groupby' and args and not isinstance(args[0], Opaque):
+      keyf = kwargs.get('key') if 'key' in kwargs else (args[1] if len(args) > 1 else None)
+      out = []
+      for item in list(args[0]):
+        k = item if keyf is None else self.apply(keyf, [item], {}, node, module, depth)
+        if isinstance(k, Opaque):
+          return Opaque('groupby')
+        if out and out[-1][0] == k:
+          out[-1][1].append(item)
+        else:
+          out.append((k, [item]))
+      return out
+    if fname == 'itertools.chain' and not any(isinstance(a, Opaque) for a in args):
+      out = []
+      for a in args:
+        out.extend(list(a))
+      return out
     if fname in self.hooks:
       return self.hooks[fname](args, kwargs)
     if _root_name(node.func) not in env and isinstance(
@@ -934,6 +951,15 @@ class Interp:
         return list(range(*args))
       if b == 'reversed':
         return list(reversed(list(args[0])))
+      if b in ('sorted', 'min', 'max') and 'key' in kwargs and isinstance(kwargs['key'], (Closure, BoundObj, Ref)):
+        keyf = kwargs['key']
+        items = list(args[0])
+        keyed = [(self.apply(keyf, [x], {}, node, None, 0), x) for x in items]
+        if any(isinstance(k, Opaque) for k, _ in keyed):
+          return Opaque(b)
+        if b == 'sorted':
+          return [x for _, x in sorted(keyed, key=lambda kv: kv[0], reverse=bool(kwargs.get('reverse', False)))]
+        return (min if b == 'min' else max)(keyed, key=lambda kv: kv[0])[1]
       if b in ('min', 'max', 'sum', 'abs', 'int', 'float', 'str', 'bool', 'sorted', 'any', 'all', 'round'):
         return {'min': min, 'max': max, 'sum': sum, 'abs': abs, 'int': int,
                 'float': float, 'str': str, 'bool': bool, 'sorted': sorted,
